@@ -4,7 +4,7 @@ import math
 import numpy as np
 
 from . import _rfa as R
-from .. import tol
+from .. import gen, tol
 from ..core import fp_watch
 from ..models import rfa_model as RM
 
@@ -70,12 +70,11 @@ def run_strategy_case(ctx, kind_, idx):
         strat = R.WINDOW[idx % 4]
         adaptive = "Adaptive" in strat
         n = int(rng.choice([2, 3]))
-        huge = int(rng.integers(66000, 90001))
+        huge = gen.huge_size(rng)
     kw, a = R.gen_params(rng, strat, n, smooth_free=False, exp_hi=4.0)
     x, y, meta = R.gen_series(rng, 2, 40, ties_share=0.0 if adaptive else 0.3, real_valued=adaptive, long_share=R.LONG_SHARE,
                               force_m=huge)
     if rng.uniform() < 0.6 and meta["xcls"] in ("uniform", "integer", "epoch"):
-        from .. import gen
         x, meta["xcls"] = gen.gen_x(rng, len(x), "nonuniform")
     if adaptive and rng.integers(0, 5) == 0:
         # tie cases of the adaptive strategies (documented special branches) - exactly equal neighbours
